@@ -42,7 +42,7 @@ func genC09(rng *rand.Rand, c *Case) {
 	cuts := rng.Intn(6)
 	for i := 0; i < cuts; i++ {
 		// N[0] selects the region, N[1] a position inside it (per mille)
-		c.Ops = append(c.Ops, Op{K: "cut", N: []int{rng.Intn(9), rng.Intn(1001), rng.Intn(2), 0}})
+		c.Ops = append(c.Ops, Op{K: "cut", N: []int{rng.Intn(9), rng.Intn(1001), []int{0, 1, 0, 1, 2}[rng.Intn(5)], 0}})
 	}
 	// drawn last, so that the cases generated before these knobs existed keep their shape
 	c.Cfg["commentlen"] = []int{0, 0, 1, 40, 255}[rng.Intn(5)]
@@ -56,7 +56,7 @@ func genC09(rng *rand.Rand, c *Case) {
 		c.Cfg["second"] = 1
 		c.Cfg["size2"] = 1 + rng.Intn(40000)
 		for i, n := 0, rng.Intn(4); i < n; i++ {
-			c.Ops = append(c.Ops, Op{K: "cut2", N: []int{rng.Intn(9), rng.Intn(1001), rng.Intn(2)}})
+			c.Ops = append(c.Ops, Op{K: "cut2", N: []int{rng.Intn(9), rng.Intn(1001), rng.Intn(3)}})
 		}
 	}
 }
@@ -263,12 +263,19 @@ func c09Upload(w *World, c *Client, path []string, name string, data, rsrc []byt
 		if op.N[0] < 0 {
 			graceful = w.Case.Idx/len(stream)%2 == 1
 		}
-		if graceful {
+		switch {
+		case len(op.N) > 2 && op.N[2] == 2:
+			// the client vanishes: the server learns of the death of this connection only after the upload has been
+			// completed over another one
+			w.Probe("fault_cut_by_vanishing")
+			c.SendStreamAbandon(stream, cut)
+		case graceful:
 			w.Probe("fault_cut_by_close")
-		} else {
+			c.SendStreamCut(stream, cut, 0, true)
+		default:
 			w.Probe("fault_cut_by_reset")
+			c.SendStreamCut(stream, cut, 0, false)
 		}
-		c.SendStreamCut(stream, cut, 0, graceful)
 		if cut >= 16 {
 			exists = true // the server opens the partial file as soon as it has the transfer preamble
 		}
@@ -293,6 +300,21 @@ func c09Upload(w *World, c *Client, path []string, name string, data, rsrc []byt
 	}
 	if _, err := os.Stat(partial); err == nil {
 		w.Violate("c09-partial-left-behind", "the partial file still exists after completion")
+	}
+	if len(c.Abandoned) > 0 {
+		for _, x := range c.Abandoned {
+			x.Reset()
+			w.Probe("fault_late_death_of_abandoned_connection")
+		}
+		c.Abandoned = nil
+		Settle()
+		if got, _ := os.ReadFile(final); !bytes.Equal(got, data) {
+			w.Violate("c09-published-file-damaged", "after the server learnt that an earlier, abandoned connection of this upload is dead, the published file has %d bytes (sent %d, common prefix %d)", len(got), len(data), commonPrefix(string(got), string(data)))
+			return
+		}
+		if _, err := os.Stat(partial); err == nil {
+			w.Violate("c09-partial-left-behind", "a partial file reappeared after the death of an abandoned connection")
+		}
 	}
 	res := c.Download(path, name, -1, false)
 	if !res.OK || !bytes.Contains(res.Stream, data) || int(res.FileSize) != len(data) {
